@@ -4,16 +4,20 @@ use crate::report::Ctx;
 pub mod c01;
 pub mod c03;
 pub mod c04;
+pub mod c10;
 pub mod c11;
 pub mod c14;
+pub mod c16;
 
 pub fn run(prop: &str, ctx: &mut Ctx) -> bool {
     match prop {
         "C01" => c01::run(ctx),
         "C03" => c03::run(ctx),
         "C04" => c04::run(ctx),
+        "C10" => c10::run(ctx),
         "C11" => c11::run(ctx),
         "C14" => c14::run(ctx),
+        "C16" => c16::run(ctx),
         _ => return false,
     }
     true
@@ -26,8 +30,10 @@ pub fn replay(prop: &str, ctx: &mut Ctx, file: &J) {
         "C01" => c01::replay(ctx, &case),
         "C03" => c03::replay(ctx, &case),
         "C04" => c04::replay(ctx, &case),
+        "C10" => c10::replay(ctx, &case),
         "C11" => c11::replay(ctx, &case),
         "C14" => c14::replay(ctx, &case),
+        "C16" => c16::replay(ctx, &case),
         _ => {}
     }
 }
